@@ -21,17 +21,17 @@ CHECKS = {
         tech="deterministic simulation: seeded scheduler + independent objective oracle over recorded histories"),
     "C05": dict(
         cat="exploration", ref="5/C05",
-        text="Model-driven schedules: for tiny instances (generator and exact-arithmetic boundary instances) the reference enumerates its own complete feasible solution set (exhaustive when <= 400/2000 sequences, seeded sample otherwise, brute-force optimum always); the real environment is driven along each solution in batches: every action must be admitted, done exactly at completion, optimum reward equal; at every visited state each must-action of the reference that is not a documented pruning must be offered.",
-        note="Exhaustive over the reference's solution set per instance, sampled over instances; never enumerates the implementation's state space. Length/time-window equalities are observations only; capacity and prize equalities are obligations on boundary instances. FFSP only via C07.",
+        text="Model-driven schedules: for tiny instances (generator and exact-arithmetic boundary instances) the reference enumerates its own complete feasible solution set (exhaustive when <= 400/2000 sequences, seeded sample otherwise, brute-force optimum always); the real environment is driven along each solution in batches: every action must be admitted, done exactly at completion, optimum reward equal (a stranger instance sits at batch row 0 in half of the runs; hand-format instances with service durations; exact fills of k/Q demands are decided in integers for CVRP, CVRPTW and MTVRP); at every visited state each must-action of the reference that is not a documented pruning must be offered.",
+        note="Exhaustive over the reference's solution set per instance, sampled over instances; never enumerates the implementation's state space. Length/time-window equalities are observations only; capacity and prize equalities are obligations on boundary instances, capacity equality also on generator instances (integer decision). FFSP only via C07.",
         tech="deterministic simulation: reference-model-generated schedules (model-trace) replayed on the real environment"),
     "C06": dict(
         cat="fault_enumeration", ref="5/C06",
-        text="Fault enumeration on recorded solutions: for a base solution (mask-driven episode or reference-built feasible solution, plus padded / no-final-depot shapes) every position x fault-kind single-fault corruption of the action list (drop, duplicate, swap, move, merge routes) and instance-side faults (raise demand, shrink window / length limit / skill, lower prize) is enumerated (capped by seeded sampling); the checker must accept what the independent problem definition accepts and raise for what it rejects beyond the float band. Covers tsp, atsp, cvrp, cvrptw (scaled/unscaled), sdvrp, svrp, op, pctsp, spctsp, pdp (both start modes), mtvrp presets, tsp_kopt and pdp_ruin_repair (successor-array corruptions).",
+        text="Fault enumeration on recorded solutions: for a base solution (mask-driven episode or reference-built feasible solution, plus padded / no-final-depot shapes) every position x fault-kind single-fault corruption of the action list (drop, duplicate, swap, move, merge routes) and instance-side faults (raise demand, shrink window / length limit / skill, lower prize) is enumerated (capped by seeded sampling), each verdict asked once alone and once in a batch next to a companion instance / solution; the checker must accept what the independent problem definition accepts and raise for what it rejects beyond the float band. Covers tsp, atsp, cvrp, cvrptw (scaled/unscaled), sdvrp, svrp, op, pctsp, spctsp, pdp (both start modes), mtvrp presets, tsp_kopt and pdp_ruin_repair (successor-array corruptions).",
         note="Ground truth = rlsim/ref/routing.py violations() and successor-array validity; verdicts inside the band are skipped; any exception counts as rejection. Exhaustive per base solution up to the cap, sampled over instances and base solutions.",
         tech="deterministic simulation: seeded base histories + exhaustive single-fault injection with independent verdict oracle"),
     "C07": dict(
         cat="exploration", ref="5/C07",
-        text="Lock-step batches of FJSP/JSSP (generator and file-loaded instances with shuffled os.listdir, mask_no_ops on/off, padded batches), FFSP (incl. machine-table multi-start) and SMTWTP under wait-eager/averse strategies with stall, snapshot/restore, env pickle/deepcopy restart and alternate-episode perturbations; an independent event-driven dispatcher predicts clock, mask and done at every tick, and an independent validator judges the final schedule (each op once, eligible machine, exact duration, job order, no machine overlap, padded ops untouched, makespan).",
+        text="Lock-step batches of FJSP/JSSP (generator and file-loaded instances with shuffled os.listdir, mask_no_ops on/off, padded batches), FFSP (incl. machine-table multi-start) and SMTWTP (generator and integer benchmark-style instances incl. zero-length jobs) under wait-eager/averse strategies with stall, snapshot/restore, env pickle/deepcopy restart and alternate-episode perturbations; an independent event-driven dispatcher predicts clock, mask and done at every tick, and an independent validator judges the final schedule (each op once, eligible machine, exact duration, job order, no machine overlap, padded ops untouched, makespan).",
         note="Trusted: rlsim/ref/scheduling.py (independent dispatcher/validators). clock/slot/mask_hides monitors go beyond the literal statement (mechanism-level) and are kept under separate monitor names. JSSP file writer is a harness stub.",
         tech="deterministic simulation: seeded scheduler + second independent discrete-event simulator as oracle"),
     "C08": dict(
@@ -41,7 +41,7 @@ CHECKS = {
         tech="deterministic simulation: seeded selection-order scheduler + reference bookkeeping model checked per tick"),
     "C09": dict(
         cat="exploration", ref="5/C09",
-        text="Histories of 20-60 moves on TSPkoptEnv (k=2,3,4) and PDPRuinRepairEnv from every mask-admitted move (scheduled), the environments' own random-move sampler, DACT/NeuOpt/N2S policies with random weights and step_to_solution, batch sizes incl. 1, snapshot right after improving moves (aliasing case) and mirror batches; after every move: single cycle, PDP precedence, cost_current/cost_bsf equal recomputed lengths and the ledger minimum, cost_bsf monotone, reward = decrease, visited_time consistent, built-in checker accepts rec_best.",
+        text="Histories of 20-60 moves on TSPkoptEnv (k=2,3,4) and PDPRuinRepairEnv from every mask-admitted move (scheduled), the environments' own random-move sampler, DACT/NeuOpt/N2S policies with random weights and step_to_solution, batch sizes incl. 1, snapshot right after improving moves (aliasing case), mirror batches and another episode reset and moved on the same environment object mid-episode; after every move: single cycle, PDP precedence, cost_current/cost_bsf equal recomputed lengths and the ledger minimum, cost_bsf monotone, reward = decrease, visited_time consistent, built-in checker accepts rec_best.",
         note="Trusted: rlsim/ref/improvement.py (list-based tours, ledger). k>=3 moves only from the sampler, NeuOpt and step_to_solution (the env has no move mask for k>2).",
         tech="deterministic simulation: seeded move scheduler + ledger/reference tour model checked after every move"),
     "C10": dict(
@@ -51,27 +51,27 @@ CHECKS = {
         tech="deterministic simulation: seeded decoding episodes with process_logits tap + sampler fault injection (bounded-liveness of the retry loop)"),
     "C11": dict(
         cat="exploration", ref="5/C11",
-        text="Record/replay of decoding histories: 24 bundled policy x environment pairs (plus the scripted decoder on all 21 environments) in greedy, sampling, multistart, multi-sample and beam modes: (i) a tap on process_logits recomputes, in float64, the masked and normalised step distribution and the returned log-likelihood must be the sum of the log-probs of the actions actually taken, forced multi-start moves and steps flagged by td['mask'] contributing zero; (ii) feeding the returned actions back in evaluate mode (k-fold expanded batch without num_starts, or num_samples) reproduces per-step log-probs, reward and entropy; (iii) PPO's first inner-step probability ratio is 1 and each mini-batch row carries its own (action, old log-prob) pair.",
+        text="Record/replay of decoding histories: 24 bundled policy x environment pairs (plus the scripted decoder on all 21 environments) in greedy, sampling, multistart, multi-sample and beam modes: (i) a tap on process_logits recomputes, in float64, the masked and normalised step distribution and the returned log-likelihood must be the sum of the log-probs of the actions actually taken, forced multi-start moves and steps flagged by td['mask'] contributing zero; (ii) feeding the returned actions back in evaluate mode (k-fold expanded batch without num_starts, or num_samples) reproduces per-step log-probs, reward and entropy; (iii) PPO's first inner-step probability ratio is 1 and each mini-batch row carries its own (action, old log-prob) pair; (iv) stepwise PPO for L2D (L2DPolicy4PPO.act/evaluate round trip under scheduled temperature/clipping, and the first-mini-batch ratio of every one of 2-3 consecutive StepwisePPO updates). The zoo includes a NonAutoregressivePolicy/Decoder behind a stub heatmap encoder.",
         note="MDAM has no evaluate mode (clause (i) only); PolyNet only on slot-preserving replays; MatNet replayed under the same torch seed; top-k/top-p only without forced first moves. Tiny random-weight policies.",
         tech="deterministic simulation: recorded decoding histories replayed in evaluate mode + float64 reference distribution from a logits tap"),
     "C12": dict(
         cat="exploration", ref="5/C12",
-        text="(a) batchify/unbatchify/unbatchify_and_gather on tensors and nested TensorDicts with factor lists (k), (a,s), (r,a,s): row r belongs to instance r mod B, expand-then-inverse is the identity; (b) multi-start / multi-sample rollouts through the real policy loop with the replica-keyed scripted decoder on every environment with a start rule (incl. cross-size environments and OP instances with unreachable customers): forced starts are feasible and pairwise distinct when k feasible starts exist, every row's trajectory equals the solo rollout of instance r mod B with replica r div B, best-of-k returns the instance's own maximum with the actions and log-likelihood of that rollout; (c) POMO / SymNCO shared_step regrouping never mixes instances; (d) real AttentionModel multistart vs solo replication.",
+        text="(a) batchify/unbatchify/unbatchify_and_gather on tensors and nested TensorDicts with factor lists (k), (a,s), (r,a,s): row r belongs to instance r mod B, expand-then-inverse is the identity; (b) multi-start / multi-sample rollouts through the real policy loop with the replica-keyed scripted decoder on every environment with a start rule (incl. cross-size environments and OP instances with unreachable customers): forced starts are feasible and pairwise distinct when k feasible starts exist, every row's trajectory equals the solo rollout of instance r mod B with replica r div B, best-of-k returns the instance's own maximum with the actions and log-likelihood of that rollout; (c) POMO / SymNCO shared_step regrouping never mixes instances; (d) real AttentionModel multistart vs solo replication; (e) rl4co's AntSystem search (DeepACO/GFACS inference) on a seeded heuristic matrix: the best reward and trail kept per instance across iterations are the instance's own best rollout.",
         note="The reference loop re-derives at most 12 rows per run; FFSP trajectories are not re-derived (machine tables live on the environment).",
         tech="deterministic simulation: per-row reproducible scripted peer + solo re-derivation of replicated rollouts"),
     "C13": dict(
         cat="exploration", ref="5/C13",
-        text="Beam search through the real policy loop (scripted state-keyed scorer, tiny real AM) on fixed- and variable-length environments, widths 2..n, select_best on/off: history check over the tapped step distributions and the strategy's beam_path: kept (parent, action) pairs are the top-w of parent score + step log-prob (near-ties indeterminate), returned sequences are root-to-leaf paths with the log-probs along that path, evaluate-mode replay reproduces them, every beam is a feasible complete solution (reference violations()), beams with distinct forced starts are distinct, select_best returns the instance's maximum.",
+        text="Beam search through the real policy loop (scripted state-keyed scorer, tiny real AM, real non-autoregressive decoder behind a stub heatmap encoder) on fixed- and variable-length environments, widths 2..n, select_best on/off: history check over the tapped step distributions and the strategy's beam_path: kept (parent, action) pairs are the top-w of parent score + step log-prob (near-ties indeterminate), returned sequences are root-to-leaf paths with the log-probs along that path, evaluate-mode replay reproduces them, every beam is a feasible complete solution (reference violations()), beams with distinct forced starts are distinct, select_best returns the instance's maximum.",
         note="No full independent re-execution of beam search; induction over recorded steps + path check + evaluate replay. flp/mcp/mtsp/scheduling beams excluded (no independent feasibility oracle for beams).",
         tech="deterministic simulation: recorded beam histories checked against a reference beam step + evaluate replay"),
     "C14": dict(
         cat="exploration", ref="5/C14",
-        text="23 bundled policy x environment pairs in eval mode (AM x 12 envs, PointerNetwork, HAM, MDAM, PolyNet, SymNCO, MatNet with a row-keyed RNG seam, L2D), greedy (and multistart-greedy) decoding: each instance solo (B=1) and inside scheduled compositions (subsets, permutations, duplicates, DataLoader chunking with non-dividing batch sizes); actions, reward and log-likelihood must coincide up to the selection-flip rule; a crash at B=1 is a violation.",
+        text="25 policy x environment pairs in eval mode (AM x 12 envs, PointerNetwork, HAM, MDAM, PolyNet, SymNCO, MatNet with a row-keyed RNG seam, L2D, non-autoregressive decoder), greedy (and multistart-greedy) decoding: each instance solo (B=1) and inside scheduled compositions (subsets, permutations, duplicates, DataLoader chunking with non-dividing batch sizes, the same chunking through rl4co.tasks.eval.evaluate_policy); actions, reward and log-likelihood must coincide up to the selection-flip rule; a crash at B=1 is a violation.",
         note="CPU kernels only; tiny random-weight policies (embed 32); policies that do not construct offline are excluded and listed in evidence. MatNet's inference-time random embedding is made per-instance by the RNG seam.",
         tech="deterministic simulation: seeded batch-composition scheduler + solo-vs-batched inference history check"),
     "C15": dict(
         cat="exploration", ref="5/C15",
-        text="(a) StateAugmentation (symmetric 2-16 copies, dihedral8, first_aug_identity on/off) on scheduled coordinate sets: per-copy distance matrices, copy 0 identity, equal cost of a scheduled action sequence on every copy; (b) evaluate_policy and the five *Eval classes with datasets of 1-23 instances, loader batch sizes that do and do not divide, num_starts/num_augment/samples: reported reward equals the reference objective of the reported actions on the original instance, is the maximum over the candidates a policy tap saw for that instance, and >= solo greedy where the identity candidate is included.",
+        text="(a) StateAugmentation (symmetric 2-16 copies, dihedral8, first_aug_identity on/off) on scheduled coordinate sets: per-copy distance matrices, copy 0 identity, equal cost of a scheduled action sequence on every copy; (b) evaluate_policy and the five *Eval classes with datasets of 1-23 instances, loader batch sizes that do and do not divide, num_starts/num_augment/samples: reported reward equals the reference objective of the reported actions on the original instance, is the maximum over the candidates a policy tap saw for that instance, and >= solo greedy where the identity candidate is included; (c) POMO / SymNCO test steps through shims: every candidate's score on its augmented copy equals the objective of its actions on the original instance, best-of-k outputs are the maximum and belong to the reported actions; (d) ActiveSearch / EASEmb / EASLay driven without a Trainer under a virtual clock (the simulator owns time.time(), incl. scheduled jumps past max_runtime): the incumbent kept across iterations is the maximum over all recorded rollouts, the stored solution is one of the rollouts attaining it and is worth that on the original instance.",
         note="Isometry is a pure-function sub-claim reached only on scheduled coordinate sets (thin). Tiny real AM only; environments tsp, cvrp, sdvrp, pdp, op, pctsp.",
         tech="deterministic simulation: seeded evaluation runs with policy tap + independent objective oracle"),
     "C16": dict(
@@ -81,7 +81,7 @@ CHECKS = {
         tech="deterministic simulation: seeded training histories with trainer shims + float64 reference surrogates and autograd comparison"),
     "C17": dict(
         cat="exploration", ref="5/C17",
-        text="Operation sequences against a reference list of instance fingerprints: the three dataset classes (+ExtraKeyDataset via add_key), eight loader modes (unshuffled, seeded/global shuffle, explicit sampler, _dataloader_single, _dataloader, dict of datasets), batch sizes dividing or not, several epochs; and real REINFORCE modules with rollout / warm-up baselines through setup, train_dataloader, on_train_epoch_end regeneration and re-wrapping: unshuffled reads reproduce order, values, dtypes, shapes and the partial batch; shuffled reads are permutations with fields kept together; the extra travelling with an instance equals the baseline policy's solo greedy reward on it.",
+        text="Operation sequences against a reference list of instance fingerprints: the three dataset classes (+ExtraKeyDataset via add_key) over fields of mixed dtype (float16/32/64, int32/64, uint8, bool) and float32/float64/int64 extra keys, eight loader modes (unshuffled, seeded/global shuffle, explicit sampler, _dataloader_single, _dataloader, dict of datasets), batch sizes dividing or not, several epochs; and real REINFORCE modules with rollout / warm-up baselines through setup, train_dataloader, on_train_epoch_end regeneration and re-wrapping: unshuffled reads reproduce order, values, dtypes, shapes and the partial batch; shuffled reads are permutations with fields kept together; the extra travelling with an instance equals the baseline policy's solo greedy reward on it.",
         note="num_workers=0 only; training replaced by seeded parameter noise.",
         tech="deterministic simulation: seeded operation sequences against a reference fingerprint list"),
     "C18": dict(
@@ -91,12 +91,12 @@ CHECKS = {
         tech="deterministic simulation: seeded generator runs with RNG fault injection (extreme-draw buggify) + solvability episodes"),
     "C19": dict(
         cat="exploration", ref="5/C19",
-        text="Operation sequences with crash points: npz save (plain/compressed, SimFile or path) -> crash -> load; generate_dataset / generator files -> env.load_data / env.dataset(phase) -> episodes compared with the directly fed instance; FJSP/JSSP text directories under shuffled os.listdir -> file generators; env deepcopy/pickle at scheduled ticks mid-episode on all 21 constructive envs (masks, reward, RNG state); Trainer.fit of tiny REINFORCE models with every checkpointable baseline -> save_checkpoint -> crash -> load_from_checkpoint (path and file object, load_baseline on/off): restored policy and rollout-baseline policy give identical greedy actions and rewards.",
+        text="Operation sequences with crash points: npz save (plain/compressed, SimFile or path) -> crash -> load; generate_dataset / generator files -> env.load_data / env.dataset(phase) -> episodes compared with the directly fed instance; FJSP/JSSP text directories under shuffled os.listdir -> file generators (also after earlier requests served by the same generator); env deepcopy/pickle at scheduled ticks mid-episode on all 21 constructive envs (masks, reward, RNG state); Trainer.fit of tiny REINFORCE models with every checkpointable baseline, and of POMO built around a policy object -> save_checkpoint -> crash -> load_from_checkpoint (path and file object, load_baseline on/off): restored policy and rollout-baseline policy give identical greedy actions and rewards, POMO also under the model's own test-phase (multi-start) decoding.",
         note="Checkpoints restored in the same process (crash = drop objects + gc). Storage faults (short/torn/bit-flipped files) run in observational mode only (the property speaks of completed writes).",
         tech="deterministic simulation: seeded operation/crash sequences over in-memory and temp-dir storage with restore-equivalence oracle"),
     "C20": dict(
         cat="exploration", ref="5/C20",
-        text="Operation sequences against float64 references: RewardScaler (None/int/norm/scale) fed batches of scheduled sizes 1-64, magnitudes 1e-3..1e3, constant and offset histories, interleaved __call__/update (count exact, mean and variance vs two-pass statistics, output = stated transformation); ExponentialBaseline recurrence (also via the registry); WarmupBaseline with consecutive/repeated/restarted/skipped epoch callbacks (alpha schedule, value = alpha*inner + (1-alpha)*EMA, loss mix).",
+        text="Operation sequences against float64 references: RewardScaler (None/int/norm/scale) fed batches of scheduled sizes 1-64, magnitudes 1e-3..1e3, constant and offset histories, interleaved __call__/update (count exact, mean and variance vs two-pass statistics, output = stated transformation); ExponentialBaseline recurrence (also via the registry); WarmupBaseline (built directly, through the registry's 'warmup' entry around a given inner baseline, and through the default 'rollout' entry with n_epochs / exp_beta) with consecutive/repeated/restarted/skipped epoch callbacks (alpha schedule, value = alpha*inner + (1-alpha)*EMA, loss mix).",
         note="The closed forms are pure functions of the history; the history (order and sizes of observed batches, epoch callbacks) is what the simulator schedules. float32 only.",
         tech="deterministic simulation: seeded streaming histories against float64 reference state machines"),
     "C04": dict(
